@@ -2,7 +2,7 @@
    boundary extraction), about Model/TetMesh.v at exact real arithmetic.
    Nothing but statements closed by [exact]; proofs live in Proofs/TetMeshP.v. *)
 From Coq Require Import List Reals Permutation.
-From LaPyV Require Import Base.Scalar Base.Vec3 Base.ListAux Model.TetMesh Model.TriaAdj Proofs.TetMeshP Proofs.TriaAdjP Proofs.TetBoundaryP.
+From LaPyV Require Import Base.Scalar Base.Vec3 Base.ListAux Model.TetMesh Model.TriaAdj Proofs.TetMeshP Proofs.TriaAdjP Proofs.TetBoundaryP Proofs.InvarianceP Proofs.VolumeScaleP Proofs.TetRigidP.
 Import ListNotations.
 Open Scope R_scope.
 
@@ -85,3 +85,28 @@ Proof.
   cbv zeta. split; [apply distinct_tet_b_ok; vm_compute; reflexivity|]. split; [apply face_manifold_b_ok; vm_compute; reflexivity|].
   vm_compute. reflexivity.
 Qed.
+
+(* a second orient_ changes nothing and returns 0, for every mesh (degenerate tetrahedra included) *)
+Theorem C12_orient_is_idempotent : forall v ts,
+  tet_orient Rops v (fst (tet_orient Rops v ts)) = (fst (tet_orient Rops v ts), 0%nat).
+Proof. exact tet_orient_idempotent. Qed.
+Print Assumptions C12_orient_is_idempotent.
+
+(* is_oriented and orient_ (which tetrahedra are swapped, and how many) do not change under proper rigid motions p -> Q p + b
+   (det Q = 1) nor under positive scalings; a reflection (det Q = -1) negates every signed volume *)
+Theorem C12_orientation_invariant_under_proper_rigid_motion : forall Q b v ts, det3 Q = 1 -> tets_in_range (length v) ts ->
+  tet_is_oriented Rops (map (rigid Q b) v) ts = tet_is_oriented Rops v ts /\
+  tet_orient Rops (map (rigid Q b) v) ts = tet_orient Rops v ts.
+Proof. exact tet_orientation_rigid_invariant. Qed.
+Print Assumptions C12_orientation_invariant_under_proper_rigid_motion.
+
+Theorem C12_orientation_invariant_under_positive_scaling : forall s v ts, 0 < s -> tets_in_range (length v) ts ->
+  tet_is_oriented Rops (map (vscaleR s) v) ts = tet_is_oriented Rops v ts /\
+  tet_orient Rops (map (vscaleR s) v) ts = tet_orient Rops v ts.
+Proof. exact tet_orientation_scale_invariant. Qed.
+Print Assumptions C12_orientation_invariant_under_positive_scaling.
+
+Theorem C12_reflection_negates_signed_volumes : forall Q b v ts, det3 Q = -1 -> tets_in_range (length v) ts ->
+  forall t, In t ts -> tet_vol6 Rops (map (rigid Q b) v) t = - tet_vol6 Rops v t.
+Proof. exact tet_reflection_negates. Qed.
+Print Assumptions C12_reflection_negates_signed_volumes.
